@@ -534,6 +534,13 @@ impl<'a> Gen<'a> {
             let n_pos = *self.r.pick(&[0usize, 0, 1, 1, 2][..]);
             for i in 0..n_pos {
                 let p = self.pos_leaf(true);
+                // a choice between positionals (`construct!([file, url])`)
+                let p = if self.sw.alts && self.r.chance(1, 6) {
+                    let q = self.pos_leaf(true);
+                    Shape::Alt(vec![p, q])
+                } else {
+                    p
+                };
                 let last = i + 1 == n_pos;
                 let p = if last || self.r.chance(1, 3) {
                     self.wrap(p, true)
